@@ -8,11 +8,11 @@ LANG_NOTE = ("Trusted base: Go toolchain; the enumerators in harness/internal/la
 CHECKS = {
  "C06": dict(engine="langmc", cat="model_checking", ref="§2.3, §3 C06",
    technique="bounded-exhaustive enumeration of structures x admissible layouts (<=k deviations) executed on the real parser, compared with the generating structure",
-   text="Every abstract spokfile of the stated small scope is rendered in every admissible layout with <=1 (quick) / <=2 (thorough) deviating sections and parsed by the real parser; the tree must equal the generating structure. Exhaustive within the bound, not sampled.",
+   text="Every abstract spokfile of the stated small scope (incl. dependency, output and argument lists of 9-33 entries next to further lists) is rendered in every admissible layout with <=1 (quick) / <=2 (thorough) deviating sections and parsed by the real parser; the tree must equal the generating structure. Exhaustive within the bound, not sampled.",
    note=LANG_NOTE),
  "C07": dict(engine="langmc", cat="model_checking", ref="§2.3, §3 C07",
    technique="bounded-exhaustive input enumeration (class-alphabet strings, structures x layouts, edit neighbourhoods) with a parse/format/reparse oracle on the real code",
-   text="Every input of three finite spaces (all strings <=5/6 symbols over the 25-class alphabet; small structures in all layouts incl. extended ones; all single (thorough: double) edits of canonical renderings and of the repository's spokfiles) that parses is formatted and re-parsed; variables and tasks must be unchanged.",
+   text="Every input of three finite spaces (all strings <=5/6 symbols over the 25-class alphabet; small structures in all layouts incl. extended ones; all single (thorough: double) edits of canonical renderings and of the repository's spokfiles) that parses is formatted and re-parsed; variables and tasks must be unchanged. A corpus of about 2000 files (space-, tab-indented, CRLF) is also formatted in place by `spok --fmt` of the built binary and held to the same oracle.",
    note=LANG_NOTE),
  "C08": dict(engine="langmc", cat="model_checking", ref="§2.3, §3 C08, §9",
    technique="bounded-exhaustive input enumeration in crash-isolated workers (termination, crash, determinism, located-error oracle); schedule part via controlled scheduler",
@@ -20,11 +20,11 @@ CHECKS = {
    note=LANG_NOTE + " Hang detection: in-worker progress watchdog (25 s without completing a case that normally takes microseconds), confirmed twice on the single input."),
  "C11": dict(engine="langmc", cat="model_checking", ref="§2.3, §3 C11",
    technique="bounded-exhaustive input enumeration with format(format(x)) == format(x) oracle on the real formatter",
-   text="Same three finite input spaces as C07; for every input that parses and whose formatted text re-parses, formatting twice must equal formatting once byte for byte.",
+   text="Same three finite input spaces as C07; for every input that parses and whose formatted text re-parses, formatting twice must equal formatting once byte for byte. Through the built binary: a second `spok --fmt` leaves each of about 2000 files byte-identical.",
    note=LANG_NOTE),
  "C15": dict(engine="langmc", cat="model_checking", ref="§2.3, §3 C15",
    technique="bounded-exhaustive input enumeration with a comment/docstring-skeleton oracle across the format round trip",
-   text="Same three finite input spaces as C07 with comments in every syntactic position; the sequence of non-empty comments and (statement, docstring) pairs must be identical before and after format+reparse.",
+   text="Same three finite input spaces as C07 with comments in every syntactic position; the sequence of non-empty comments and (statement, docstring) pairs must be identical before and after format+reparse, and before and after `spok --fmt` of the built binary on about 2000 files incl. tab-indented ones and comments holding runs of blanks and tabs.",
    note=LANG_NOTE),
  "C16": dict(engine="langmc", cat="model_checking", ref="§2.3, §3 C16",
    technique="bounded-exhaustive input enumeration with a token-tiling oracle on the real lexer's token stream",
@@ -37,7 +37,7 @@ CFG_NOTE = ("Trusted base: Go toolchain; the small reference functions in the ha
 CHECKS.update({
  "C03": dict(engine="cfgmc-c03", cat="model_checking", ref="§2.4, §3 C03",
    technique="exhaustive enumeration of task graphs x request lists x map-iteration orders (controlled-iteration overlay of the dag package) executed on the real SpokFile.Run, against a closure/cycle reference",
-   text="Every digraph on 1-3 vertices incl. self-loops (thorough: also all 65536 on 4 vertices, each with one failing task for <=3) x every request list x every iteration order the topological sort may meet (explicit choice points instead of Go's map randomisation), plus undefined names at depth 1/2, duplicate definitions and families up to 8 vertices. The run must be exactly the closure, once each, dependencies first, and bad graphs must be errors that run nothing.",
+   text="Every digraph on 1-3 vertices incl. self-loops (thorough: also all 65536 on 4 vertices, each with one failing task for <=3) x every request list x every iteration order the topological sort may meet (explicit choice points instead of Go's map randomisation), plus undefined names at depth 1/2, duplicate definitions, variables and files spelled like tasks, task names that are prefixes of one another and families up to 8 vertices. The run must be exactly the closure, once each, dependencies first, and bad graphs must be errors that run nothing.",
    note=CFG_NOTE + " Map iteration order is modelled as an arbitrary permutation chosen by the explorer (superset of what the Go runtime does)."),
  "C05": dict(engine="cfgmc-c05", cat="model_checking", ref="§2.4, §3 C05",
    technique="exhaustive enumeration of directory trees (all subsets of a path pool) x glob patterns, expanded by the real code via file.New/Run/Globs, against a reference matcher over a full walk",
@@ -88,19 +88,19 @@ CHECKS.update({
    note=BIN_NOTE),
  "C12": dict(engine="cfgmc-c12", cat="model_checking", ref="§2.4, §3 C12",
    technique="exhaustive enumeration of output-declaration sets x project trees x clean-task presence through `spok --clean`, compared with a reference via whole-sandbox snapshots",
-   text="Every set of <=2 output declarations over 18 kinds (literal, directory, nested, three globs, variables with relative / nested / join values, and dangerous values: \"\", \".\", \"..\", variables holding them, the project dir, its parent, the spokfile itself, a glob matching everything) x 10 trees (thorough 256) x with/without a clean task: removed paths must be a subset of the designated ones (equal when spok exits 0), never the spokfile, its directory or anything above; nothing else changes.",
+   text="Every set of <=2 (thorough: harmless triples too) output declarations over 35 kinds (literal, directory, nested, three globs, variables with relative / nested / join values, symbolic links, names with $ and ~ in them, and dangerous values: \"\", \".\", \"..\", variables holding them, the project dir, its parent - also spelled as absolute paths with trailing or doubled slashes, /sub/.. or /../. - the spokfile itself, a glob matching everything) x 10 trees (thorough 256) x with/without a clean task: removed paths must be a subset of the designated ones (equal when spok exits 0), never the spokfile, its directory or anything above; nothing else changes.",
    note=BIN_NOTE + " Relative outputs are read relative to the spokfile directory; runs are from the project root."),
  "C13": dict(engine="cfgmc-c13", cat="model_checking", ref="§2.4, §3 C13",
    technique="exhaustive enumeration of variable name x value x kind configurations through the built binary (--vars, template task, environment task), compared with textual substitution",
-   text="Names {unset, HOME, ambient, .env, both} x 17 string values (blanks, $x, braces, =, #, quote, empty, non-ASCII, tab) / join part lists from root and nested cwd / exec with surrounding white space / failing exec, with and without a second variable: --vars value, the command text after {{.NAME}} substitution and the value of $NAME seen by the command must all be the spokfile value.",
+   text="Names {unset, HOME, ambient, .env, both} x 17 string values (blanks, $x, braces, =, #, quote, empty, non-ASCII, tab) / join part lists from root and nested cwd / exec with surrounding white space, terminal escapes, output on standard error only / failing exec, with and without a second variable, declared above, between or below the tasks: --vars value, the command text after {{.NAME}} substitution and the value of $NAME seen by the command must all be the spokfile value.",
    note=BIN_NOTE),
  "C19": dict(engine="cfgmc-c19", cat="model_checking", ref="§2.4, §3 C19",
    technique="full product of spokfile class x action x cwd x .gitignore x cache presence through the built binary between two whole-sandbox snapshots",
-   text="10 spokfile classes (valid canonical/unformatted, variables only, syntax error, three load errors, parses-but-does-not-load, absent, directory) x 15 command lines x root/nested cwd x .gitignore x earlier cache: every created/changed/removed path must be allowed by the action (.spok next to the spokfile; the spokfile for --fmt only when it parses and loads; cwd/spokfile and an appended .gitignore for --init).",
+   text="12 spokfile classes (valid canonical/unformatted, variables only, syntax error, three load errors, parses-but-does-not-load, absent, directory, symlink, dangling symlink) x 23 command lines x root/nested cwd x .gitignore x earlier cache, further the spokfile's permission bits x the process umask, and a cache directory that cannot be created (.spok is a file / the project directory is read-only): every created/changed/removed path must be allowed by the action (.spok next to the spokfile; the spokfile's text, not its mode, for --fmt only when it parses and loads; cwd/spokfile and an appended .gitignore for --init).",
    note=BIN_NOTE + " Timestamps are not part of a snapshot."),
  "C20": dict(engine="cfgmc-c20", cat="model_checking", ref="§2.4, §3 C20",
    technique="exhaustive enumeration of small programs x report/listing flags through the built binary, compared with a harness-owned side-effect log",
-   text="1-3 tasks x docstrings x default task x 0-2 commands (distinct stdout/stderr markers) x 0-2 variables x chain/independent x file dependencies: --json (first and repeated run) must be one JSON list of exactly the run's tasks in execution order with skipped flags and per-command text/stdout/stderr/status; --quiet stdout empty; --show/--vars complete, sorted, with docstrings/values; no arguments runs default or lists.",
+   text="1-5 tasks x docstrings x default task x 0-2 commands (distinct stdout/stderr markers) x 0-2 variables x chain/independent x file dependencies, programs whose commands write 20 / 300 KiB to each stream, and programs with docstrings and values longer than a terminal line listed on pseudo terminals of 40-132 columns as well as into a pipe: --json (first and repeated run) must be one JSON list of exactly the run's tasks in execution order with skipped flags and per-command text/stdout/stderr/status; --quiet stdout empty; --show/--vars complete, sorted, with docstrings/values; no arguments runs default or lists.",
    note=BIN_NOTE + " JSON field names are not prescribed: fields are recognised by type and content."),
 })
 
